@@ -153,6 +153,10 @@ class Shape:
     def translated(self, t):
         raise NotImplementedError
 
+    def inball(self, p):
+        """A lower bound (exact where noted) of the radius of the largest ball around p contained in K; 0 if p is outside."""
+        return 0.0
+
     def bound_radius(self):
         """Radius of a ball around centre() containing K."""
         return self.size()
@@ -176,6 +180,9 @@ class Sphere(Shape):
 
     def anchor(self):
         return self.c.copy(), self.r
+
+    def inball(self, p):
+        return max(0.0, self.r - float(np.linalg.norm(p - self.c)))
 
     def size(self):
         return 2 * self.r
@@ -235,6 +242,10 @@ class Ellipsoid(_Posed):
     def anchor(self):
         return self.c.copy(), float(self.radii.min())
 
+    def inball(self, p):
+        sval = float(np.linalg.norm(self.loc(p) / self.radii))
+        return max(0.0, (1.0 - sval) * float(self.radii.min()))
+
     def size(self):
         return 2 * float(self.radii.max())
 
@@ -275,6 +286,11 @@ class Capsule(_Posed):
 
     def anchor(self):
         return self.c.copy(), self.r
+
+    def inball(self, p):
+        x = self.loc(p)
+        z = min(self.hh, max(-self.hh, x[2]))
+        return max(0.0, self.r - math.sqrt(x[0] ** 2 + x[1] ** 2 + (x[2] - z) ** 2))
 
     def size(self):
         return 2 * (self.hh + self.r)
@@ -318,6 +334,10 @@ class Cylinder(_Posed):
 
     def anchor(self):
         return self.c.copy(), min(self.r, self.hl)
+
+    def inball(self, p):
+        x = self.loc(p)
+        return max(0.0, min(self.r - math.hypot(x[0], x[1]), self.hl - abs(x[2])))
 
     def size(self):
         return 2 * max(self.r, self.hl)
@@ -365,6 +385,12 @@ class Cone(_Posed):
         rho = self.r * self.height / (self.r + math.hypot(self.r, self.height))
         return self.glob(np.array([0.0, 0.0, rho])), rho
 
+    def inball(self, p):
+        x = self.loc(p)
+        rho, z = math.hypot(x[0], x[1]), x[2]
+        side = (self.r * (1.0 - z / self.height) - rho) * self.height / math.hypot(self.r, self.height)
+        return max(0.0, min(z, side))
+
     def size(self):
         return max(2 * self.r, self.height)
 
@@ -399,6 +425,9 @@ class Box(_Posed):
 
     def anchor(self):
         return self.c.copy(), float(self.hs.min())
+
+    def inball(self, p):
+        return max(0.0, float(np.min(self.hs - np.abs(self.loc(p)))))
 
     def size(self):
         return 2 * float(self.hs.max())
@@ -549,6 +578,9 @@ class Hull(Shape):
         c = self.v.mean(axis=0)
         return c, max(0.0, self.inside_margin(c))
 
+    def inball(self, p):
+        return max(0.0, self.inside_margin(np.asarray(p, dtype=float)))
+
     def size(self):
         return float(np.max(np.linalg.norm(self.v - self.v.mean(axis=0), axis=1))) * 2
 
@@ -589,6 +621,10 @@ class Margin(Shape):
     def anchor(self):
         a, d = self.inner.anchor()
         return a, d + self.m
+
+    def inball(self, p):
+        d = self.inner.dist(p)
+        return self.inner.inball(p) + self.m if d == 0 else max(0.0, self.m - d)
 
     def size(self):
         return self.inner.size() + 2 * self.m
